@@ -1,6 +1,8 @@
 package sim
 
 import (
+	"fmt"
+
 	cose "github.com/veraison/go-cose"
 )
 
@@ -40,7 +42,13 @@ func scenarioC07(r *Run) {
 	if k.Reorder {
 		r.Outcome("reordered")
 	}
-	r.Outcome(spec.Kind.String())
+	{
+		algs := ""
+		for _, k := range keysOf(spec) {
+			algs += fmt.Sprintf("%d,", k.Alg)
+		}
+		r.Outcome(fmt.Sprintf("%s/algs=%s/ext=%s/prot=%s/detached=%v/a0=%v/csigdepth=%d", spec.Kind, algs, extClass(spec.External), sizeClass(len(spec.Layer.Prot)), detached, k.A0, depth))
+	}
 	r.Check()
 	rc, err := r.Decode(spec.Kind, w.B)
 	if err != nil {
